@@ -134,6 +134,10 @@ def curve_d(world, ev):
     for k in used:
         if c[k] % Q == want:
             return k, c[k] % Q
+    half = pow(2, Q - 2, Q)
+    for k in used:
+        if c[k] * half % Q == want:        # the formulas use a precomputed 2*d
+            return k + "/2", want
     if used:
         return used[0], c[used[0]] % Q
     for k, v in c.items():
@@ -152,6 +156,8 @@ def formula_functions(world, ev):
     if d is None:
         raise AnalysisError("anchor vanished: curve constant d = -121665/121666 not found among the module constants")
     res = {}
+    helpers = {nm: h.node for nm, h in m.env.items() if isinstance(h, FuncV) and not isinstance(h.node, ast.Lambda)
+               and ev.policy.is_leaf_arith(h.node, h.mod)}
     for name, v in m.env.items():
         if not isinstance(v, FuncV):
             continue
@@ -159,11 +165,12 @@ def formula_functions(world, ev):
         if ev.policy.ret_shape(v) != 4 or ev.policy.classify(v) != "leaf":
             continue
         nargs = len(n.args.args)
+        hs = {k: h for k, h in helpers.items() if h is not n}
         try:
             if nargs == 2:
-                res[v.qual] = classify_add(n, Q, d, consts)
+                res[v.qual] = classify_add(n, Q, d, consts, hs)
             elif nargs == 1:
-                res[v.qual] = classify_double(n, Q, d, consts)
+                res[v.qual] = classify_double(n, Q, d, consts, hs)
         except AnalysisError as e:
             res[v.qual] = {"kind": None, "error": str(e)}
     return res
@@ -174,8 +181,8 @@ def _pt(Q, x, y, z):
     return (X * Z, Y * Z, Z, X * Y * Z)
 
 
-def classify_add(node, Q, d, consts):
-    s = Straight(Q, consts)
+def classify_add(node, Q, d, consts, helpers=None):
+    s = Straight(Q, consts, helpers=helpers)
     P1 = _pt(Q, "x1", "y1", "z1")
     P2 = _pt(Q, "x2", "y2", "z2")
     out = s.run(node, [P1, P2])
@@ -214,8 +221,8 @@ def classify_add(node, Q, d, consts):
     return info
 
 
-def classify_double(node, Q, d, consts):
-    s = Straight(Q, consts)
+def classify_double(node, Q, d, consts, helpers=None):
+    s = Straight(Q, consts, helpers=helpers)
     P1 = _pt(Q, "x1", "y1", "z1")
     out = s.run(node, [P1])
     if not (isinstance(out, tuple) and len(out) == 4):
@@ -241,43 +248,180 @@ def classify_double(node, Q, d, consts):
     return info
 
 
-def ladder_info(world, ev, f):
-    """For a self-recursive double-and-add function: which formula functions it calls."""
+def ladder_info(world, ev, f, extra=()):
+    """For a self-recursive double-and-add function: which formula functions it uses - the
+    package functions it calls by name plus the functions passed for its function-valued
+    parameters (`extra`: the call's arguments after (point, scalar))."""
     called = []
     for n in ast.walk(f.node):
         if isinstance(n, ast.Call) and isinstance(n.func, ast.Name):
             v = world.static_lookup(f.mod, n.func.id)
             if isinstance(v, FuncV) and v.qual != f.qual:
                 called.append(v.qual)
+    called += [a.qual for a in extra if isinstance(a, FuncV)]
     return sorted(set(called))
 
 
-def identity_test_ok(world, ev, f):
-    """Does predicate f(XYZT) decide 'is the identity in extended coordinates'
-    (X == 0 and Y == Z and Y != 0, coordinates reduced mod Q)?  Checked by evaluating
-    the function on a symbolic 4-tuple and reading the path conditions."""
+def ladder_call(world, ev, c):
+    """c = fn:<ladder>(point, scalar[, function arguments]) -> dict(func, pt, n, extra, uses) or None.
+    A ladder is a self-recursive package function; parameters after the first two must be bound
+    to package functions (a higher-order ladder parameterised by its addition formula)."""
+    if not (isinstance(c, App) and c.f.startswith("fn:") and len(c.args) >= 2 and not c.kw):
+        return None
+    f = func_by_qual(world, c.f[3:])
+    if f is None or ev.policy.classify(f) != "recursive" or len(f.node.args.args) != len(c.args):
+        return None
+    extra = tuple(c.args[2:])
+    if not all(isinstance(a, FuncV) for a in extra):
+        return None
+    return {"func": f, "pt": c.args[0], "n": c.args[1], "extra": extra, "uses": set(ladder_info(world, ev, f, extra))}
+
+
+def ladder_instances(world, ev, m):
+    """Every (ladder function, tuple of function arguments) in module m: a 2-parameter recursive
+    function is its own instance; a ladder with function-valued parameters has one instance per
+    distinct tuple of package functions passed to it from outside itself."""
+    out = []
+    for name, f in sorted(m.env.items()):
+        if not isinstance(f, FuncV) or isinstance(f.node, ast.Lambda) or ev.policy.classify(f) != "recursive":
+            continue
+        np_ = len(f.node.args.args)
+        if np_ == 2:
+            out.append((f, ()))
+            continue
+        if np_ < 2:
+            continue
+        seen = set()
+        for (mod, qual, node) in world.functions():
+            if node is f.node:
+                continue
+            for c in ast.walk(node):
+                if isinstance(c, ast.Call) and isinstance(c.func, ast.Name) and world.static_lookup(mod, c.func.id) == f \
+                        and len(c.args) == np_ and not c.keywords:
+                    ex = tuple(world.static_lookup(mod, a.id) if isinstance(a, ast.Name) else None for a in c.args[2:])
+                    if all(isinstance(e, FuncV) for e in ex) and tuple(e.qual for e in ex) not in seen:
+                        seen.add(tuple(e.qual for e in ex))
+                        out.append((f, ex))
+    return out
+
+
+def _truth_paths(world, f, arg):
+    """Evaluate predicate f(arg) with f inlined: -> list of condition sets under which it is true,
+    or None if it can raise / returns something that is not a truth value."""
     from .evalr import Ev, Policy
     pol = Policy(world)
     pol.force_inline.add(f.qual)
     e2 = Ev(world, policy=pol)
+    outs = e2.run(f, [arg], [], world.static.fork())
+    base = len(world.static.pc)
+    res = []
+    for o in outs:
+        if o.kind != "return":
+            return None
+        conds = {(t, p) for (t, p, _) in o.state.pc[base:]}
+        v = o.value
+        if v == Const(True):
+            res.append(conds)
+        elif v == Const(False):
+            continue
+        elif isinstance(v, App):
+            res.append(conds | {(v, True)})       # `return <comparison>`: true exactly when it holds
+        else:
+            return None
+    return res
+
+
+_ID_CACHE = {}
+
+
+def identity_test_ok(world, ev, f):
+    """Does predicate f(XYZT) decide 'is the identity in extended coordinates'
+    (X == 0 and Y == Z and Y != 0, coordinates reduced mod Q)?  Decided on the paths of f
+    evaluated on a symbolic 4-tuple (any spelling: if/return True, `return a and b and c`)."""
+    key = (id(world), f.qual)
+    if key in _ID_CACHE:
+        return _ID_CACHE[key]
+    _ID_CACHE[key] = (False, "not a predicate on a 4-tuple")
+    if len(f.node.args.args) != 1:
+        return _ID_CACHE[key]
     X, Y, Z, T = (Sym(n, "int") for n in "XYZT")
-    outs = e2.run(f, [TupleV([X, Y, Z, T])], [], world.static.fork())
+    try:
+        paths = _truth_paths(world, f, TupleV([X, Y, Z, T]))
+    except AnalysisError:
+        return _ID_CACHE[key]
     qn, Q = field_prime(world, ev)
 
     def red(v):   # accepted spellings of "coordinate reduced mod Q"
         return (v, mk_app("Mod", (v, Const(Q))))
-    true_paths = [o for o in outs if o.kind == "return" and o.value == Const(True)]
-    false_paths = [o for o in outs if o.kind == "return" and o.value == Const(False)]
-    if len(true_paths) != 1 or not false_paths or len(true_paths) + len(false_paths) != len(outs):
-        return False, "predicate does not return exactly True on one path and False on the others"
-    conds = {(t, p) for (t, p, _) in true_paths[0].state.pc}
-    okx = any((mk_app("Eq", (x, Const(0))), True) in conds for x in red(X))
-    okyz = any((mk_app("Eq", (y, z)), True) in conds for y in red(Y) for z in red(Z))
-    oky = any((mk_app("NotEq", (y, Const(0))), True) in conds or (mk_app("Eq", (y, Const(0))), False) in conds for y in red(Y)) or \
-        any((mk_app("NotEq", (z, Const(0))), True) in conds or (mk_app("Eq", (z, Const(0))), False) in conds for z in red(Z))
-    if okx and okyz and oky and len(conds) == 3:
-        return True, "X == 0 and Y == Z (mod Q) and Y != 0"
-    return False, "True-path conditions are %s" % sorted(show(t, maxdepth=4) + "=" + str(p) for t, p in conds)
+    r = (False, "predicate is not true on exactly one path")
+    if paths is not None and len(paths) == 1:
+        conds = paths[0]
+        okx = any((mk_app("Eq", (x, Const(0))), True) in conds or (mk_app("NotEq", (x, Const(0))), False) in conds for x in red(X))
+        okyz = any((mk_app("Eq", (y, z)), True) in conds or (mk_app("NotEq", (y, z)), False) in conds for y in red(Y) for z in red(Z))
+        oky = any((mk_app("NotEq", (y, Const(0))), True) in conds or (mk_app("Eq", (y, Const(0))), False) in conds for y in red(Y) + red(Z))
+        if okx and okyz and oky and len(conds) == 3:
+            r = (True, "X == 0 and Y == Z (mod Q) and Y != 0")
+        else:
+            r = (False, "true-path conditions are %s" % sorted(show(t, maxdepth=4) + "=" + str(p) for t, p in conds))
+    _ID_CACHE[key] = r
+    return r
+
+
+def oncurve_test_ok(world, ev, f):
+    """Does predicate f([x, y]) test the curve equation -x^2 + y^2 = 1 + d x^2 y^2 (mod Q)?"""
+    from .poly import term_poly
+    key = (id(world), "curve", f.qual)
+    if key in _ID_CACHE:
+        return _ID_CACHE[key]
+    _ID_CACHE[key] = (False, "not a predicate on a coordinate pair")
+    if len(f.node.args.args) != 1:
+        return _ID_CACHE[key]
+    qn, Q = field_prime(world, ev)
+    dn, d = curve_d(world, ev)
+    x, y = Sym("x", "int"), Sym("y", "int")
+    r = (False, "predicate is not one test of a polynomial in (x, y)")
+    for arg in (TupleV([x, y], "list"), TupleV([x, y], "tuple")):
+        try:
+            paths = _truth_paths(world, f, arg)
+        except AnalysisError:
+            continue
+        if paths is None or len(paths) != 1 or len(paths[0]) != 1:
+            continue
+        (t, p), = paths[0]
+        if not (is_app(t, "Eq", "NotEq") and Const(0) in t.args and (p is (t.f == "Eq"))):
+            continue
+        other = t.args[0] if t.args[1] == Const(0) else t.args[1]
+        if not (is_app(other, "Mod") and other.args[1] == Const(Q)):
+            continue
+        atoms = {"x": x, "y": y}
+        try:
+            pe = term_poly(other.args[0], Q, atoms)
+        except AnalysisError:
+            continue
+        px, py = Poly.var(Q, "x"), Poly.var(Q, "y")
+        curve = -(px * px) + py * py - 1 - Poly.const(Q, d) * px * px * py * py
+        c = (-pe.t.get((), 0)) % Q
+        if c and (pe - curve * c).is_zero() and set(atoms) == {"x", "y"}:
+            r = (True, "tests -x^2 + y^2 - 1 - d x^2 y^2 = 0 (mod Q)")
+            break
+        r = (False, "the tested polynomial is not the curve equation")
+    _ID_CACHE[key] = r
+    return r
+
+def odd_fact(t, pol, x):
+    """If the condition (t, pol) states the parity of x, -> True (x is odd) / False (x is even); else None.
+    Spellings: x % 2 != 0, x % 2 == 0, x % 2 == 1, x & 1 (truth value), (x & 1) != 0, (x & 1) == 1, bool(...)."""
+    if is_app(t, "bool") and len(t.args) == 1:
+        t = t.args[0]
+    low = (mk_app("Mod", (x, Const(2))), mk_app("BitAnd", (x, Const(1))))
+    if any(t == l for l in low):
+        return bool(pol)
+    if is_app(t, "Eq", "NotEq") and len(t.args) == 2:
+        for a, b in (t.args, t.args[::-1]):
+            if any(a == l for l in low) and isinstance(b, Const) and b.v in (0, 1) and not isinstance(b.v, bool):
+                is_one = (b.v == 1) == (t.f == "Eq")       # the condition, when true, says "low bit is 1"
+                return is_one == bool(pol)
+    return None
 
 
 def sqrt_helper_ok(world, ev, f):
@@ -337,8 +481,7 @@ def sqrt_helper_ok(world, ev, f):
         if wrong != times_i:
             return False, "the root is multiplied by sqrt(-1) on the wrong branch"
         cand = mk_app("Mod", (mk_app("Mult", (x, Const(I))), Const(Q))) if times_i else x
-        odd_t = mk_app("NotEq", (mk_app("Mod", (cand, Const(2))), Const(0)))
-        odd = [p if t == odd_t else (not p) for (t, p) in conds if t == odd_t or t == mk_app("Eq", odd_t.args)]
+        odd = [o_ for o_ in (odd_fact(t, p, cand) for (t, p) in conds) if o_ is not None]
         if len(odd) != 1 or odd[0] != flipped:
             return False, "the candidate is not negated exactly when it is odd"
         if len(conds) != 2:
